@@ -259,6 +259,8 @@ def partLoop (lt : α → α → Bool) (p : α) (sf : Nat) : Nat → List α →
       else partLoop lt p sf f xs l' r1'
     else some (xs, l, r1)
 
+/-- `quicksort(T* a, int n)` after dff9640: `while (n >= 2) { partition; recurse into the smaller part; go on with the
+larger one }` — the continuation of the `while` is the second call here (it does not deepen the C++ stack) -/
 def qsortAux (lt : α → α → Bool) : Nat → List α → Nat → Nat → Option (List α)
   | 0, _, _, _ => none
   | f + 1, xs, a, n =>
@@ -267,8 +269,28 @@ def qsortAux (lt : α → α → Bool) : Nat → List α → Nat → Nat → Opt
     | none => none
     | some p =>
       (partLoop lt p (n + 2) (n + 2) xs a (a + n)).bind fun r =>
-      -- quicksort(a, r - a + 1); quicksort(l, a + n - l);
-      (qsortAux lt f r.1 a (r.2.2 - a)).bind fun xs' => qsortAux lt f xs' r.2.1 (a + n - r.2.1)
+      -- nl = int(r - a + 1), nr = int(a + n - l)
+      if r.2.2 - a < a + n - r.2.1 then
+        (qsortAux lt f r.1 a (r.2.2 - a)).bind fun xs' => qsortAux lt f xs' r.2.1 (a + n - r.2.1)
+      else
+        (qsortAux lt f r.1 r.2.1 (a + n - r.2.1)).bind fun xs' => qsortAux lt f xs' a (r.2.2 - a)
+
+/-- the same recursion, also returning how deep the nested C++ calls go (the call on the smaller part is one level
+deeper, the continuation of the loop is not) -/
+def qsortAuxD (lt : α → α → Bool) : Nat → List α → Nat → Nat → Option (List α × Nat)
+  | 0, _, _, _ => none
+  | f + 1, xs, a, n =>
+    if n < 2 then some (xs, 0) else
+    match xs[a + n / 2]? with
+    | none => none
+    | some p =>
+      (partLoop lt p (n + 2) (n + 2) xs a (a + n)).bind fun r =>
+      if r.2.2 - a < a + n - r.2.1 then
+        (qsortAuxD lt f r.1 a (r.2.2 - a)).bind fun x =>
+          (qsortAuxD lt f x.1 r.2.1 (a + n - r.2.1)).map fun y => (y.1, max (x.2 + 1) y.2)
+      else
+        (qsortAuxD lt f r.1 r.2.1 (a + n - r.2.1)).bind fun x =>
+          (qsortAuxD lt f x.1 a (r.2.2 - a)).map fun y => (y.1, max (x.2 + 1) y.2)
 
 def qsortList (lt : α → α → Bool) (xs : List α) : Option (List α) :=
   qsortAux lt (xs.length + 1) xs 0 xs.length
